@@ -1,23 +1,24 @@
 ----------------------------- MODULE CapMonitor -----------------------------
 (* C04, capacity clause: "bounded variants never hold more than their capacity".       *)
-(* On a call/return history of a real bounded mailbox: when an Enqueue returns success, *)
-(* the number of successful Enqueues returned so far minus the number of Dequeue calls  *)
-(* STARTED so far (each can have removed at most one message) is a lower bound of what  *)
-(* the mailbox holds; it must not exceed the documented capacity.  In the fill phase    *)
-(* of the "_fill" stress runs no Dequeue has started, so the bound is exact.            *)
+(* On a call/return history of a real bounded mailbox with its single consumer: when an *)
+(* Enqueue returns success, (successful Enqueues returned so far) - (messages returned  *)
+(* by Dequeue so far) - (1 if a Dequeue is in flight) is a lower bound of what the      *)
+(* mailbox holds; it must not exceed the documented capacity.                           *)
 EXTENDS Integers, Sequences, TLC, Json
 CONSTANT Cap
 Trace == ndJsonDeserialize("trace.ndjson")
-VARIABLES l, succ, deqStarted
-Init == l = 1 /\ succ = 0 /\ deqStarted = 0
+VARIABLES l, succ, deqItems, inflight
+Init == l = 1 /\ succ = 0 /\ deqItems = 0 /\ inflight = 0
 Step == /\ l <= Len(Trace) /\ l' = l + 1
         /\ LET e == Trace[l] IN
-           CASE e.ev = "New" -> succ' = 0 /\ deqStarted' = 0
-             [] e.ev = "call" /\ e.op = "deq" -> deqStarted' = deqStarted + 1 /\ UNCHANGED succ
+           CASE e.ev = "New" -> succ' = 0 /\ deqItems' = 0 /\ inflight' = 0
+             [] e.ev = "call" /\ e.op = "deq" -> inflight' = 1 /\ UNCHANGED <<succ, deqItems>>
+             [] e.ev = "ret" /\ e.op = "deq" ->
+                  /\ inflight' = 0 /\ deqItems' = deqItems + (IF e.res # 0 THEN 1 ELSE 0) /\ UNCHANGED succ
              [] e.ev = "ret" /\ e.op = "enq" /\ e.res = 1 ->
-                  /\ succ' = succ + 1 /\ UNCHANGED deqStarted
-                  /\ IF succ + 1 - deqStarted <= Cap THEN TRUE
-                     ELSE PrintT(<<"MISMATCH", l, succ + 1 - deqStarted, Cap>>)
-             [] OTHER -> UNCHANGED <<succ, deqStarted>>
-Spec == Init /\ [][Step]_<<l, succ, deqStarted>>
+                  /\ succ' = succ + 1 /\ UNCHANGED <<deqItems, inflight>>
+                  /\ IF succ + 1 - deqItems - inflight <= Cap THEN TRUE
+                     ELSE PrintT(<<"MISMATCH", l, succ + 1 - deqItems - inflight, Cap>>)
+             [] OTHER -> UNCHANGED <<succ, deqItems, inflight>>
+Spec == Init /\ [][Step]_<<l, succ, deqItems, inflight>>
 =============================================================================
